@@ -50,11 +50,47 @@ def monitor(rep, idx, c):
     # C13.1 -- previous-cycle register for the edge modes
     prev = None
     P = None
+    cands = []
     for s in c.t.sigs.values():
         ds = c.drivers_of(('sig', s.id, s.name))
         if ds and all(c.norm(d.value) == c.norm(A(sub, 'i')) for d in ds):
-            prev = s
-            P = ('sig', s.id, s.name)
+            cands.append(s)
+    if len(cands) > 1:
+        # one previous-sample register per edge mode, each created in its own `trigger == MODE` branch: at most one of them
+        # exists for a given source, so they play one role.  (Branches that are not mutually exclusive are left alone.)
+        def mode_of(s):
+            ms = set()
+            for fr in s.gen:
+                if fr[0] == 'pyif' and fr[2]:
+                    cn = c.norm(fr[1])
+                    if cn[0] == 'cmp' and cn[1] == '==' and c.norm(A(sub, 'trigger')) in (cn[2], cn[3]):
+                        other = cn[3] if cn[2] == c.norm(A(sub, 'trigger')) else cn[2]
+                        ms.add(ir.show(other))
+            return ms
+        modes = [mode_of(s) for s in cands]
+        same_ctor = len({ir.show(c.norm(s.ctor)) for s in cands}) == 1
+        if all(len(m_) == 1 for m_ in modes) and len({next(iter(m_)) for m_ in modes}) == len(cands) and same_ctor:
+            keep = ('sig', cands[0].id, cands[0].name)
+            ren = {('sig', s.id, s.name): keep for s in cands[1:]}
+
+            def rn(e):
+                return ir.subst(e, lambda x: ren.get(x))
+            for d_ in c.t.drivers:
+                d_.target, d_.value = rn(d_.target), rn(d_.value)
+                d_.dsl = tuple((fr[0], rn(fr[1])) + tuple(fr[2:]) if fr[0] in ('if', 'elif') else fr for fr in d_.dsl)
+            c.groups, c.tir = {}, {}
+            for d_ in c.t.drivers:
+                tn = c.norm(d_.target)
+                key = (d_.domain, ir.show(tn))
+                c.groups.setdefault(key, []).append(d_)
+                c.tir[key] = tn
+            cands = cands[:1]
+    if len(cands) == 1:
+        prev = cands[0]
+        P = ('sig', prev.id, prev.name)
+    elif cands:
+        prev = cands[-1]
+        P = ('sig', prev.id, prev.name)
     if P is None:
         # a register that lives on the component (created by the constructor) instead of a local one
         for (dom, key), ds in c.groups.items():
